@@ -212,6 +212,8 @@ def c08(chk, opts):
     with ThreadPoolExecutor(max_workers=max(2, NCPU // 2)) as ex:
         results = list(ex.map(child, jobs))
     trace = chk.path("drain.ndjson")
+    slowest = max(results, key=lambda x: x[3])
+    print("  slowest child: case %d [%s] %.1fs" % (slowest[0], slowest[1], slowest[3]), flush=True)
     with open(trace, "w") as f:
         for i, prof, out, dt in results:
             ev = dict(cfgs[i]); ev.update(out); ev.update({"op": "drain", "profile": prof, "case": i})
